@@ -38,7 +38,7 @@ def run(tier, replay):
             "states": mc.distinct + gen.distinct, "transitions": mc.generated + gen.generated,
             "traces_validated_against_impl": n1["Serve"] + n3["Serve"], "wire_requests": n3["Serve"], "triples": ncases,
             "samples": S.sample_events(trace, 3),
-            "rule": "Gen_Static(c09): every servable path of two menu worlds (files, directory indexes +/- slash, .html fallbacks, through links, built-in "
+            "rule": "[triples also with query / fragment spellings] Gen_Static(c09): every servable path of two menu worlds (files, directory indexes +/- slash, .html fallbacks, through links, built-in "
                     "assets) x {prod, legacy} x {no Range, bytes=0-0} x {no Origin, Origin} x {plain, preflight headers}; each case is run as GET, HEAD, OPTIONS "
                     "and the HEAD/OPTIONS responses are related to the GET response by C09Violations (Trace_Static keeps the last GET per entry point)",
         }
